@@ -1,3 +1,4 @@
+import TRV.Basic.Bytes
 /-!
 # Vocabulary of the regenerated decision trees (`TRV/Generated/Logic*.lean`)
 
@@ -31,5 +32,8 @@ def R.get (r : R) (k : String) : Option V := (r.rets.find? (·.1 = k)).map (·.2
 
 /-- the error position holds `nil` -/
 def R.okAt (r : R) (k : String) : Bool := r.get k = some V.nil
+
+/-- `binary.BigEndian.Uint16 / Uint32` of an octet string: the big-endian value of its first `n` octets -/
+def be (b : Bytes) (n : Nat) : Nat := beNat (b.take n)
 
 end TRV.Logic
